@@ -27,8 +27,8 @@ QUIT = [('wl', 'quit'), ('w', 'q'), ('wlquit', ''), ('wl', 'wlq')]
 
 def plan(tier, seed):
     if tier == 'quick':
-        return [{'n': 10, 'gdb_shim': True, 'tui': 60} for _ in range(16)]
-    return [{'n': 260, 'gdb_shim': True, 'tui': 2500} for _ in range(64)]
+        return [{'n': 10, 'gdb_shim': True, 'tui': 60} for _ in range(14)] + [{'mode': 'tierb', 'n': 3, 'gdb_shim': True} for _ in range(2)]
+    return [{'n': 260, 'gdb_shim': True, 'tui': 2500} for _ in range(56)] + [{'mode': 'tierb', 'n': 25, 'gdb_shim': True} for _ in range(8)]
 
 
 def gen_user_command(rng, g, names):
@@ -50,7 +50,7 @@ def gen_user_command(rng, g, names):
     return nm, arg, 'neutral', None
 
 
-def run_gdb_session(ctx, rng, cands):
+def run_gdb_session(ctx, rng, cands, trace=None):
     k = rng.randint(1, 4)
     st = streams.build(rng, cands, k=k, n_each=(15, 60), tagged=True)
     projs = [c05.project(e, st['names'][e['ci']], {'new': True, 'comma': False}) for e in st['entries']]
@@ -73,6 +73,8 @@ def run_gdb_session(ctx, rng, cands):
     for ci in st['names']:
         gs.new_connection(ci, st['sides'][ci])
     case_base = {'lines': [e['line'] for e in st['entries']], 'b': b_text}
+    if trace is not None:
+        trace.update({'st': st, 'b': b_text, 'halts': {}, 'before': [], 'quit_at': None, 'cur': None})
 
     def user_phase(halted, max_cmds):
         """commands at the prompt; -> 'continue' | 'quit' | 'halted'"""
@@ -81,6 +83,8 @@ def run_gdb_session(ctx, rng, cands):
             nm, arg, kind, payload = gen_user_command(rng, g, names)
             n0, x0 = gs.mark()
             script.append(['cmd', nm, arg])
+            if trace is not None:
+                (trace['before'] if trace['cur'] is None else trace['halts'][trace['cur']]).append((nm + ' ' + arg).strip())
             case = dict(case_base, script=script[-60:])
             try:
                 executed = gs.sim.command(nm, arg)
@@ -106,10 +110,16 @@ def run_gdb_session(ctx, rng, cands):
         r = rng.random()
         if r < 0.25:
             script.append(['gdb-continue'])
+            if trace is not None:
+                trace['halts'][trace['cur']].append('continue')
             return 'continue'           # the user types gdb's own `continue`
         nm, arg = rng.choice(RESUME) if r < 0.92 else rng.choice(QUIT)
         want = 'continue' if (nm, arg) in RESUME else 'quit'
         script.append(['cmd', nm, arg])
+        if trace is not None:
+            trace['halts'][trace['cur']].append((nm + ' ' + arg).strip())
+            if want == 'quit':
+                trace['quit_at'] = trace['cur']
         case = dict(case_base, script=script[-60:])
         try:
             executed = gs.sim.command(nm, arg)
@@ -157,6 +167,9 @@ def run_gdb_session(ctx, rng, cands):
         if stop:
             halts += 1
             ctx.setadd('transitions', 'run>halt')
+            if trace is not None:
+                trace['cur'] = idx + 1
+                trace['halts'][idx + 1] = []
             res = user_phase(True, 4)
             if res == 'abort':
                 return
@@ -166,6 +179,8 @@ def run_gdb_session(ctx, rng, cands):
         else:
             runs += 1
             ctx.setadd('transitions', 'run>run')
+    if trace is not None:
+        trace['complete'] = True
     ctx.count('gdb_sessions')
     ctx.count('halts', halts)
     ctx.count('left_running', runs)
@@ -173,6 +188,77 @@ def run_gdb_session(ctx, rng, cands):
         ctx.sig(h64(script))
     if len(ctx.samples) < 1 and halts:
         ctx.sample({'b': b_text, 'script_head': script[:25]})
+
+
+def run_tierb(ctx, rng, cands):
+    """replay a tier-A session under real gdb: same inferior events, same commands at the same halts; the program must halt
+    at exactly the same messages, and resume / quit must behave the same"""
+    from .. import gdbreal
+    import re
+    if not gdbreal.available():
+        ctx.count('tierb_skipped_no_gdb_or_inferior')
+        return
+    trace = {}
+    nv = len(ctx.violations)
+    run_gdb_session(ctx, rng, cands, trace)
+    if not trace.get('complete') or len(ctx.violations) != nv:
+        return
+    st = trace['st']
+    # gdb's CLI: keep to commands whose text survives it unchanged
+    allc = trace['before'] + [c for v in trace['halts'].values() for c in v]
+    if any('#' in c or '\\' in c or '\n' in c or c != c.strip() or '$' in c for c in allc):
+        ctx.count('tierb_sessions_skipped_cli_characters')
+        return
+    script = gdbreal.Script()
+    conn = {ci: script.conn(st['sides'][ci]) for ci in st['names']}
+    for e in st['entries']:
+        rec = e['rec']
+        request = rec['send_c']
+        sending = request if e['side'] == 'client' else not request
+        args = []
+        for a in rec['args']:
+            a = dict(a)
+            if a['k'] == 'o':
+                a['decl'] = None if a['v'] is None else a['v']['iface']
+            args.append(a)
+        script.event(conn[e['ci']], 1, sending, rng.choice([0, 1]), rec['iface'], rec['id'], rec['name'], ''.join(a['k'] for a in args), args)
+    opts = ['-C'] + (['-b', trace['b']] if trace['b'] else [])
+    try:
+        r = gdbreal.run(script, argv_opts=opts, at_halt={str(k): v for k, v in trace['halts'].items()}, before_run=trace['before'])
+    except Exception as e:
+        ctx.inconc('tier B run failed: %r' % (e,))
+        return
+    if not any(x['t'] == 'loaded' for x in r['records']):
+        ctx.inconc('tier B: the plugin did not load inside gdb: %s' % (r['stderr'][-300:],))
+        return
+    ctx.ev()
+    ctx.count('tierb_sessions')
+    halts_b = [x['seq'] for x in r['records'] if x['t'] == 'halt']
+    want = sorted(trace['halts'])
+    case = {'lines': [e['line'] for e in st['entries']], 'b': trace['b'], 'halt_commands': {str(k): v for k, v in trace['halts'].items()}, 'before': trace['before'], 'tier': 'B'}
+    if halts_b != want:
+        ctx.violation('tierb-halts-differ', 'under real gdb the program halted at events %r, on the shim (and in the model) at %r; stderr %s' % (
+            halts_b[:12], want[:12], r['stderr'][-300:]), case)
+        return
+    stopped = [x['seq'] for x in r['records'] if x['t'] == 'write' and 'Stopped at' in x['text']]
+    if sorted(set(stopped)) != want:
+        ctx.violation('tierb-stopped-notice', '`Stopped at` notices at %r, halts at %r' % (stopped[:12], want[:12]), case)
+        return
+    execs = [(x['seq'], x['cmd']) for x in r['records'] if x['t'] == 'execute' and x['cmd'] in ('continue', 'quit')]
+    want_exec = []
+    for k in want:
+        last = trace['halts'][k][-1] if trace['halts'][k] else None
+        if last is not None and last != 'continue':
+            want_exec.append((k, 'quit' if trace['quit_at'] == k else 'continue'))
+    if execs != want_exec:
+        ctx.violation('tierb-resume-quit', 'the plugin made real gdb execute %r, expected %r' % (execs[:10], want_exec[:10]), case)
+        return
+    exited = any(x['t'] == 'exited' for x in r['records'])
+    if trace['quit_at'] is None and not exited:
+        ctx.violation('tierb-not-finished', 'the program did not run to its end under gdb: %s' % r['stderr'][-300:], case)
+        return
+    ctx.count('tierb_halts_identical', len(want))
+    ctx.sig(['B', h64(case)])
 
 
 def run_tui(ctx, rng, n):
@@ -224,6 +310,10 @@ def run_tui(ctx, rng, n):
 def run(ctx, spec):
     env.setup(spec)
     cands = wlxml.shipped(env.REPO)
+    if spec.get('mode') == 'tierb':
+        for i in range(spec['n']):
+            run_tierb(ctx, ctx.rng, cands)
+        return
     for i in range(spec['n']):
         run_gdb_session(ctx, ctx.rng, cands)
         if ctx.out_of_time():
